@@ -212,16 +212,17 @@ _P = {
 }
 # contracts added in parts 3-5 (text appended to the PROVED part of the claim)
 _P_MORE = {
+    "C11": "PROVED (part 9): Other.other_oriented_segment answers with the TO side iff the argument equals the FROM side, else the FROM side iff it equals the TO side, else None (tolerant) / NotFoundError (both sides compared through OrientedLine.__eq__). ",
     "C01": "PROVED: Writer.to_list writes every positional field and every tag in order, a field that cannot be encoded as its fallback text with the `# INVALID` marker (two loop invariants); Writer.field_to_s encodes a value with the datatype of its field; FieldArray._vpush / Multiline.add keep the datatype of a header tag given on several lines; Segment._subclass tells the segment syntax from the fields in front of the tags, and its tag test accepts every tag of every datatype (regex inclusion). ",
     "C02": "PROVED: Disconnection.disconnect performs its seven steps in the order that keeps the registry and the collections consistent, _disconnect_dependent_lines visits every dependant of every declared collection; the instance replaced by _substitute_virtual_line is left detached (no owner, no share in the adopted collections). PROVED (part 7): Creators._register_line stores a line exactly once under the key Destructors._unregister_line looks for (name / identity / identity within the sub-collection of a fragment's external sequence, collections created on demand), and _unregister_line pops exactly that entry - the sub-collection of an external sequence iff its last fragment leaves - and nothing else. ",
     "C03": "PROVED: Link.is_compatible / _direct / _complement are the stated Boolean functions (an unspecified overlap on EITHER side matches), so that a path and its link meet in both arrival orders; the tags of group lines sharing an identifier are united with their datatypes whatever the order. ",
     "C04": "PROVED: validate_interval (E and F lines, connected or not) raises iff begin > end or `$` is misused, and the record-specific validation of E and F lines applies it to exactly their two intervals; the Field_* contracts pin every datatype with a grammar on ALL strings (a value followed by a newline is refused). ",
     "C05": "PROVED: disconnect / _disconnect_dependent_lines (order of the steps; every dependant of every declared collection, each once). PROVED (part 7): Destructors._unregister_line (exactly the entry of the removed line leaves the registry); Link.is_compatible / _direct / _complement (the path over a removed link is found through the link from either form); Disconnection._remove_nonfield_backreferences: every set and path that lists a removed gap has the mention dropped exactly once, and a group left without items is disconnected exactly once iff it is still connected, nothing else (two passes of one loop, invariant with a frame for the collection still to be walked). ",
-    "C06": "PROVED: Ordered._find_edge_from_path_to_segment (the edge an O line leaves implicit, with its orientation: what the conversion of an ordered group to a GFA1 path writes). PROVED (part 7): Path._initialize_links records the direction in which each step uses its link (what to_gfa2 writes as the sign of the edge); Ordered._check_gfa1_path_steps: an ordered group has a GFA1 path as counterpart iff every edge of its captured path is a dovetail from the previous to the next oriented segment, read forwards or as its complement (ValueError otherwise; loop invariant over the steps, every length). ",
+    "C06": "PROVED: Ordered._find_edge_from_path_to_segment (the edge an O line leaves implicit, with its orientation: what the conversion of an ordered group to a GFA1 path writes). PROVED (part 7): Path._initialize_links records the direction in which each step uses its link (what to_gfa2 writes as the sign of the edge); Ordered._check_gfa1_path_steps: an ordered group has a GFA1 path as counterpart iff every edge of its captured path is a dovetail from the previous to the next oriented segment, read forwards or as its complement (ValueError otherwise; loop invariant over the steps, every length). PROVED (part 9): Containment.rpos = pos + CIGAR.length_on_reference (under contract), an unspecified overlap refused with gfapy.ValueError. ",
     "C07": "PROVED: validate_interval raises gfapy errors only; the Field_* contracts hold for every string. ",
     "C08": "PROVED: Multiplication.multiply checks requested copy names (count, names carried by or referred to by a line, repeats) before anything is changed, and raises nothing afterwards; FieldArray._vpush / Multiline.add refuse a contradicting header value before writing; the tag loops of SameID write nothing before the check has passed. PROVED (part 7): Creators._register_line notes a virtual line in the log of the connect in progress iff one is open; Connection._validate_no_reference_to_own_name writes nothing. ",
     "C09": "PROVED: Finders._search_duplicate finds the line an arriving line collides with by record type and identifier; the instance replaced by a later line is detached, so that renaming it cannot touch the registry; the names computed for copies are fresh (ComputeCopyNames). PROVED (part 7): Connection._validate_no_reference_to_own_name refuses a line iff one of its reference fields mentions its own identifier - text, line or oriented reference, single or in a list (two loop invariants, all numbers of fields and items); Creators._register_line / Destructors._unregister_line keep the registry keyed by identifier and move the counter of integer names to max(counter, n) exactly for ASCII digit names of at most 1000 characters. ",
-    "C12": "PROVED: Link.is_compatible / _direct / _complement; Finders._search_duplicate hands a link to the link search; Finders._search_link returns the first dovetail of the from-segment that is a link compatible with the request in either form, None iff there is none or the segment is unknown (loop invariant with early exit). ",
+    "C12": "PROVED: Link.is_compatible / _direct / _complement; Finders._search_duplicate hands a link to the link search; Finders._search_link returns the first dovetail of the from-segment that is a link compatible with the request in either form, None iff there is none or the segment is unknown (loop invariant with early exit). PROVED (part 9): Canonical.canonicize returns the link itself iff is_canonical(), else what complement() returns; Other.other_oriented_segment answers with the TO side iff the argument equals the FROM side, else the FROM side iff it equals the TO side, else None (tolerant) / NotFoundError. ",
     "C13": "PROVED: Segment._subclass: GFA1 syntax iff two fields precede the maximal run of tag-looking fields, GFA2 iff three, FormatError otherwise (descending loop, all numbers of fields), and its tag test accepts the tags of every datatype A i f Z J H B; __add_line_GFA1 / __add_line_GFA2 merge a header only if it names no version or their own (any other VN, also one beginning like it, is refused before anything is kept), refuse a segment written in the other syntax, and connect every other record once. PROVED (part 7): in a Gfa of the rGFA dialect a line that would fix the version gfa2 (GFA2 segment, E F G U O, VN 2.0) is refused with VersionError at every level before anything is kept (AddLineUnknownVersion); process_line_queue sets the version to the guess before the first queued line is added and hands every queued line to add_line exactly once, in order, then empties the queue (loop invariant, every queue length). ",
     "C14": "PROVED: Link.is_compatible / _direct / _complement (the link a path step asks for is found whatever side leaves the overlap unspecified). ",
     "C15": "PROVED: Multiplication.multiply as orchestrator, for every factor, list of copy names and distribution setting: factor < 0 refused, 0 = one removal, 1 = nothing, k >= 2 = one division of the counts by k, k-1 clones named by the requested (checked) or computed names in order, one distribution iff a policy is given (two loop invariants; callees as ghost events, see assumptions); __divide_counts sets each of KC/RC/FC that the line carries once to value div factor; __divide_segment_and_connection_counts divides the counts of the segment once and of every edge exactly once (an edge of the segment with itself is listed twice); __clone_segment_and_connections makes one connected copy of the segment and exactly one connected clone per edge, in which every end that was the segment is the copy, a named edge carries a fresh name and the originals are untouched; _compute_copy_names returns factor-1 pairwise distinct names none of which is carried or referred to by a line (for loop with an inner while loop). PROVED (part 7): Multiplication._distribute_links: member m of [original] + copies keeps on the distributed end exactly the links whose signature is among the signatures m .. m+max(n-k,0) of the original's links (clamped slice), every other connected link of that end is disconnected once, nothing else is touched (two loop invariants with quantified frame, all numbers of copies and links; assumed: the links on that end of different members are different lines); with the window-cover lemma no former neighbour loses all its links. ",
@@ -246,7 +247,7 @@ for _p, (_n, _txt) in _P.items():
     META[_p]["technique"] = TECH_PB
 
 # floors on the number of obligations generated per run (vacuity guard): about 70 % of the count on the tree of part 5
-_FLOORS = {"C01": 70, "C02": 175, "C03": 120, "C04": 195, "C05": 400, "C06": 125, "C07": 215, "C08": 460, "C09": 420, "C10": 240, "C11": 108, "C12": 100,
+_FLOORS = {"C01": 70, "C02": 175, "C03": 120, "C04": 195, "C05": 400, "C06": 128, "C07": 215, "C08": 460, "C09": 420, "C10": 240, "C11": 114, "C12": 108,
            "C13": 65, "C14": 90, "C15": 88, "C16": 56, "C17": 46, "C18": 490, "C19": 235, "C20": 410}
 for _p, _n in _FLOORS.items():
     META[_p]["min_obligations"] = _n
